@@ -204,6 +204,9 @@ func (e *Engine) emitWith(st *State, name, sub string, extraHyps []T, goal T, te
 	if goal.S == "true" {
 		q.Text = "" // trivially discharged
 	}
+	if goal.S == "false" {
+		q.FalseGoal = true // fails unless the path is infeasible; an undecided feasibility query counts as failed, no retry
+	}
 	e.queries = append(e.queries, q)
 }
 
